@@ -184,6 +184,26 @@ func C13(c *Ctx) {
 		}
 		jobs = append(jobs, job{b, pickFlags(), rng.Intn(2) == 0, rng.Intn(2) == 0, "random"})
 	}
+	// texts that make the front-end record hundreds of errors: long runs of malformed bytes inside a
+	// literal, hundreds of rules with a bad escape each, kilobytes of noise
+	{
+		many := []string{"A <- \"" + strings.Repeat("\xff", 150) + "\"\n", "A <- '" + strings.Repeat("\xc3\x28", 400) + "'\n", "A <- [" + strings.Repeat("\xfe", 700) + "]\n"}
+		var sb strings.Builder
+		for k := 0; k < 320; k++ {
+			fmt.Fprintf(&sb, "R%d <- \"\\q%d\" '\\%c' [\\w]\n", k, k, "jkq!"[k%4])
+		}
+		many = append(many, sb.String(), sb.String()[:sb.Len()/3])
+		noise := make([]byte, 6000)
+		for k := range noise {
+			noise[k] = byte(rng.Intn(256))
+		}
+		many = append(many, string(noise), "A <- 'x'\n"+string(noise[:3000]))
+		for i, t := range many {
+			for _, f := range [][]string{{}, {"-cache"}, {"-optimize-grammar", "-optimize-parser"}} {
+				jobs = append(jobs, job{[]byte(t), f, i%2 == 0, i%3 == 0, "many-errors"})
+			}
+		}
+	}
 	// deeply nested groups under -cache: the front-end's own parse is memoized there and takes linear
 	// time (without -cache the pinned tree is exponential in the nesting depth - it terminates, but not
 	// within any CPU budget one would want to wait for, so those texts only run with the flag)
